@@ -104,8 +104,10 @@ class Sum(Factory, Container):
 
     @inheritdoc(Container)
     def __iadd__(self, other):
-        self.entries += other.entries
-        self.sum += other.sum
+        # merge with + first: it raises, leaving both operands untouched, if anything is incompatible
+        both = self + other
+        self.entries = both.entries
+        self.sum = both.sum
         return self
 
     @inheritdoc(Container)
